@@ -259,6 +259,7 @@ type fn struct {
 	recvType  string
 	// guarded-by: writes to fields of the receiver's struct (when that struct holds a mutex) made while no
 	// mutex of the receiver is WRITE-held, and every resolved call site with whether one was write-held
+	manualCalls map[string]bool  // "mutex:callee text" — a call made while the mutex is held and no deferred unlock covers it
 	bareWrites map[string]bool   // "Owner.field"
 	callSites  map[string][]bool // callee -> per call site: a mutex of the caller's receiver write-held
 }
@@ -407,6 +408,7 @@ func (f *fn) exprCalls(n ast.Node, st *state) {
 			} else if what == "rel" {
 				delete(st.held, f.mutexKey(mx))
 				delete(st.wheld, f.mutexKey(mx))
+			} else if f.noteManual(x, st); false {
 			} else if cal := f.callee(x); cal != "" {
 				f.calls[cal] = true
 				for h := range st.held {
@@ -419,6 +421,23 @@ func (f *fn) exprCalls(n ast.Node, st *state) {
 		}
 		return true
 	})
+}
+
+// builtins and conversions that cannot run foreign code
+var harmlessCalls = map[string]bool{"len": true, "cap": true, "make": true, "new": true, "append": true, "delete": true, "copy": true, "close": true,
+	"string": true, "int": true, "int32": true, "int64": true, "uint32": true, "uint64": true, "byte": true, "panic": true, "recover": true, "min": true, "max": true}
+
+// noteManual: a call made while a mutex is held that no deferred unlock covers — if the callee panics the mutex
+// stays locked for ever (the recover further up keeps the process alive and every later user of the mutex hangs).
+func (f *fn) noteManual(c *ast.CallExpr, st *state) {
+	if id, ok := c.Fun.(*ast.Ident); ok && harmlessCalls[id.Name] {
+		return
+	}
+	for k := range st.held {
+		if !st.deferred[k] {
+			f.manualCalls[k+":"+exprText(c.Fun)] = true
+		}
+	}
 }
 
 // ownWriteHeld: some mutex that belongs to the receiver's struct (or a struct it embeds) is write-held.
@@ -829,7 +848,7 @@ func main() {
 	}
 	var fns []*fn
 	for _, d := range decls {
-		f := &fn{acquires: map[string]bool{}, heldCalls: map[[2]string]bool{}, calls: map[string]bool{}, leaks: map[string]bool{}, heldAcq: map[[2]string]bool{}, bareWrites: map[string]bool{}, callSites: map[string][]bool{}}
+		f := &fn{acquires: map[string]bool{}, heldCalls: map[[2]string]bool{}, calls: map[string]bool{}, leaks: map[string]bool{}, heldAcq: map[[2]string]bool{}, manualCalls: map[string]bool{}, bareWrites: map[string]bool{}, callSites: map[string][]bool{}}
 		f.name = d.Name.Name
 		if d.Recv != nil && len(d.Recv.List) == 1 {
 			f.recvType = typeName(d.Recv.List[0].Type)
@@ -920,6 +939,18 @@ func main() {
 		}
 	}
 	sort.Strings(unguarded)
+	var manual []string
+	for _, f := range fns {
+		for k := range f.manualCalls {
+			manual = append(manual, f.name+":"+k)
+		}
+	}
+	sort.Strings(manual)
+	if os.Getenv("LOCKS_DEBUG") != "" {
+		for _, m := range manual {
+			fmt.Println("MANUAL", m)
+		}
+	}
 
 	// Only what the discipline speaks about is emitted: S = functions that lock something or call under a
 	// lock, R = everything reachable (through resolved calls) from a callee of a call made under a lock —
@@ -1131,12 +1162,27 @@ func main() {
 		fmt.Fprintf(&b, "(%d, %q)", tag, n)
 		fmt.Printf("UNGUARDED %s is written while no mutex of its struct is write-held (not classified in known/locks_unguarded_expected.txt)\n", n)
 	}
-	for n := range expected {
-		if !seenExp[n] {
-			fmt.Printf("NOTE expected unguarded write %s no longer occurs\n", n)
+	b.WriteString("]\n\n/-- (tag of the mutex, `function:mutex:callee`): calls made while a mutex is held that NO deferred unlock covers (a panic in\nthe callee leaves the mutex locked for ever) and that known/locks_unguarded_expected.txt does not classify (`manual:` lines). -/\ndef manualUnexpected : List (Nat × String) := [")
+	first = true
+	for _, n := range manual {
+		if expected["manual:"+n] {
+			seenExp["manual:"+n] = true
+			continue
 		}
+		parts := strings.SplitN(n, ":", 3)
+		if !first {
+			b.WriteString(", ")
+		}
+		first = false
+		fmt.Fprintf(&b, "(%d, %q)", tags[parts[1]], n)
+		fmt.Printf("MANUALUNLOCK %s calls %s while holding %s, which is released by hand, not by defer: a panic in the callee leaves it locked (not classified in known/locks_unguarded_expected.txt)\n", parts[0], parts[2], parts[1])
 	}
 	fmt.Fprintf(&b, "]\n\n/-- lib/go's go.mod declares a Go version below 1.22: loop variables are shared by the iterations (counted in `loopShares`). -/\ndef loopVariablesShared : Bool := %v\n\nend FV.Generated.Locks\n", perLoopVarShared)
+	for n := range expected {
+		if !seenExp[n] {
+			fmt.Printf("NOTE expected site %s no longer occurs\n", n)
+		}
+	}
 	// human-readable report of what breaks the discipline (the Lean side decides; this is for the replay file)
 	acq := map[string]map[string]bool{}
 	var reach func(n string, seen map[string]bool) map[string]bool
